@@ -298,3 +298,74 @@ class VirtualCondition(threading.Condition):
         if w is not None and timeout > 0:
             w.clock += timeout
         return False
+
+
+class SymDict(object):
+    """dict whose keys may be symbolic ints: lookups compare against the stored keys (forking on
+    equality) instead of hashing, so a symbolic stream id stays symbolic"""
+
+    def __init__(self, items=()):
+        self._kv = list(items)
+
+    def _find(self, k):
+        for i, (sk, v) in enumerate(self._kv):
+            if bool(sk == k):
+                return i
+        return -1
+
+    def __contains__(self, k):
+        return self._find(k) >= 0
+
+    def __getitem__(self, k):
+        i = self._find(k)
+        if i < 0:
+            raise KeyError(k)
+        return self._kv[i][1]
+
+    def __setitem__(self, k, v):
+        i = self._find(k)
+        if i < 0:
+            self._kv.append((k, v))
+        else:
+            self._kv[i] = (self._kv[i][0], v)
+
+    def __delitem__(self, k):
+        i = self._find(k)
+        if i < 0:
+            raise KeyError(k)
+        del self._kv[i]
+
+    def pop(self, k, *default):
+        i = self._find(k)
+        if i < 0:
+            if default:
+                return default[0]
+            raise KeyError(k)
+        return self._kv.pop(i)[1]
+
+    def get(self, k, default=None):
+        i = self._find(k)
+        return default if i < 0 else self._kv[i][1]
+
+    def popitem(self):
+        return self._kv.pop()
+
+    def keys(self): return [k for k, v in self._kv]
+    def values(self): return [v for k, v in self._kv]
+    def items(self): return list(self._kv)
+    def __iter__(self): return iter(self.keys())
+    def __len__(self): return len(self._kv)
+    def __bool__(self): return bool(self._kv)
+
+
+class SymSet(object):
+    def __init__(self, items=()):
+        self._d = SymDict((x, True) for x in items)
+
+    def __contains__(self, k): return k in self._d
+    def add(self, k): self._d[k] = True
+    def remove(self, k): del self._d[k]
+    def discard(self, k): self._d.pop(k, None)
+    def __len__(self): return len(self._d)
+    def __iter__(self): return iter(self._d.keys())
+    def __bool__(self): return bool(self._d)
